@@ -48,7 +48,42 @@ func layoutOf(T types.Type) *Layout {
 	return l
 }
 
-func sizeOf(T types.Type) int { return layoutOf(T).N() }
+var sizeCache = map[types.Type]int{}
+
+// sizeOf is the number of cells of a value of type T (computed without materialising
+// the leaf list, so that structs with very large arrays can still be addressed).
+func sizeOf(T types.Type) int {
+	if n, ok := sizeCache[T]; ok {
+		return n
+	}
+	n := 0
+	switch t := T.Underlying().(type) {
+	case *types.Basic:
+		if t.Info()&types.IsString != 0 {
+			n = 3
+		} else {
+			n = 1
+		}
+	case *types.Pointer:
+		n = 2
+	case *types.Slice:
+		n = 4
+	case *types.Struct:
+		for i := 0; i < t.NumFields(); i++ {
+			n += sizeOf(t.Field(i).Type())
+		}
+	case *types.Array:
+		n = int(t.Len()) * sizeOf(t.Elem())
+	case *types.Tuple:
+		for i := 0; i < t.Len(); i++ {
+			n += sizeOf(t.At(i).Type())
+		}
+	default:
+		n = 1
+	}
+	sizeCache[T] = n
+	return n
+}
 
 func buildLayout(T types.Type, path string, l *Layout) {
 	switch t := T.Underlying().(type) {
@@ -75,7 +110,7 @@ func buildLayout(T types.Type, path string, l *Layout) {
 	case *types.Array:
 		n := int(t.Len())
 		es := sizeOf(t.Elem())
-		if n*es > maxLeaves {
+		if n*es > maxLeaves || len(l.Leaves)+n*es > maxLeaves {
 			panic(unsupported(fmt.Sprintf("array value too large to flatten: %s", T)))
 		}
 		el := layoutOf(t.Elem())
